@@ -356,9 +356,15 @@ def run_shard(shard, rec):
                 check_codec(sers, name, x, False, rec)
         gen.draw_many(gen.core_values(), shard["n"], seed, core_case)
         gen.draw_many(gen.ext_values(), shard["n"], seed + 1, ext_case)
-        for d in range(1, 13):
-            for _ in range(4):
+        for d in list(range(1, 13)) + [40, 65, 70, 100, 140]:      # "arbitrarily nested": also far beyond what a generator reaches by chance
+            for _ in range(4 if d < 13 else 6):
                 core_case(gen.deep_core(d, r))
+        for d in (66, 90, 140):
+            v = float("nan")
+            for i in range(d):
+                v = [v] if i % 2 else {"k": v}
+            core_case(v)
+            rec.count("deeply_nested_values")
         for v in [2 ** 63, -2 ** 63 - 1, 2 ** 64, -2 ** 64, 2 ** 2047, -(2 ** 2047), [2 ** 70], {"k": -2 ** 99}, float("nan"), [float("nan")], (float("nan"),),
                   {"a": (float("nan"), 1)}, [(float("inf"), [float("-inf")])], -0.0, [-0.0], "\x00", "a\x00b", "퟿", "", "", [[]], [{}], {"": ""}]:
             (core_case if not has_tuple(v) else ext_case)(v)
@@ -403,6 +409,14 @@ def run_shard(shard, rec):
                 core_case({"v": [1, "é", None]}, "q" * padlen)
             for v in [2 ** 63, -2 ** 63 - 1, 2 ** 200, float("nan"), -0.0, "\x00", [float("inf")]]:
                 core_case(v)
+            for d in (30, 70, 100, 140):
+                for _ in range(3):
+                    core_case(gen.deep_core(d, r))
+                v = float("nan")
+                for i in range(d):
+                    v = [v] if i % 2 else {"k": v}
+                core_case(v)
+                rec.count("deeply_nested_values")
         gen.draw_many(gen.core_values(12), shard["n"], seed + 5, core_case)
         gen.draw_many(gen.ext_values(8), shard["n"] // 2, seed + 6, ext_case)
         for kind, text in fixture.take_faults():
